@@ -13,6 +13,7 @@
 package main
 
 import (
+	"io/ioutil"
 	"crypto/hmac"
 	"crypto/sha256"
 	"encoding/base64"
@@ -210,8 +211,9 @@ type provOpts struct {
 }
 
 type world struct {
-	prov   provOpts
-	mux    *auth.AuthenticatorMux
+	prov    provOpts
+	handler http.Handler // what cmd/sso-auth/main.go installs: LoggingHandler(TimeoutHandler(mux))
+	mux     *auth.AuthenticatorMux
 	addrs  []string
 	doms   []string
 	cookie aead.Cipher
@@ -279,6 +281,8 @@ func buildWorld(f *idp, statsdPort int, addrs, doms []string, po provOpts, mustV
 	o.Data().ValidateURL = mustURL(f.srv.URL + "/okta/introspect")
 	o.Data().ProfileURL = mustURL(f.srv.URL + "/okta/userinfo")
 	w := &world{prov: po, mux: m, addrs: addrs, doms: doms}
+	// the wrappers of cmd/sso-auth/main.go:45-52 are part of the real path
+	w.handler = auth.NewLoggingHandler(ioutil.Discard, http.TimeoutHandler(m, cfg.ServerConfig.TimeoutConfig.Request, ""), cfg.LoggingConfig.Enable, sc)
 	w.cookie, err = aead.NewMiscreantCipher(cookieSecret)
 	c.Must(err)
 	w.code, err = aead.NewMiscreantCipher(codeSecret)
@@ -290,7 +294,7 @@ func buildWorld(f *idp, statsdPort int, addrs, doms []string, po provOpts, mustV
 
 func (w *world) do(req *http.Request) *httptest.ResponseRecorder {
 	rec := httptest.NewRecorder()
-	w.mux.ServeHTTP(rec, req)
+	w.handler.ServeHTTP(rec, req)
 	return rec
 }
 
@@ -553,7 +557,13 @@ type cookieIn struct {
 }
 
 var emailPool = []string{"alice@example.com", "ALICE@EXAMPLE.COM", "bob@example.com", "Bob@Example.com", "carol@other.org",
-	"eve@evil.com", "x@evilexample.com", "x@example.com.evil", "example.com@evil.org", "", "alice@example.com ", "ÀLICE@example.com"}
+	"eve@evil.com", "x@evilexample.com", "x@example.com.evil", "example.com@evil.org", "", "alice@example.com ", "ÀLICE@example.com",
+	// Unicode simple-fold neighbours of ASCII letters: U+017F LONG S (ToLower leaves it), U+212A KELVIN SIGN (ToLower gives k)
+	"\u017fam@corp.example", "sam@corp.example", "SAM@corp.example", "\u212aim@corp.example", "kim@corp.example", "x@\u017fk.example", "x@s\u212a.example", "x@sk.example",
+	" ", "alice@example.com\x00", longLocal + "@example.com"}
+
+var longLocal = strings.Repeat("a", 300)
+
 
 var offsets = []int64{-86400, -3600, -120, -60, 60, 120, 3600, 86400}
 
@@ -1218,8 +1228,18 @@ func main() {
 		buildWorld(f, port, []string{"carol@other.org"}, dEx, p0, false),
 		buildWorld(f, port, []string{"carol@other.org"}, dEx, pEx, false),
 		buildWorld(f, port, nil, nil, pEx, false),
+		// rules with letters that have Unicode simple-fold neighbours (s: U+017F, k: U+212A)
+		buildWorld(f, port, []string{"sam@corp.example", "Kim@corp.example"}, nil, p0, true),
+		buildWorld(f, port, nil, []string{"sk.example"}, p0, true),
 	}
+	east := time.FixedZone("UTC+9", 9*3600)
 	pickW := func() *world {
+		// sealed deadlines must mean the same instants whatever zone the process runs in
+		if r.Chance(0.3) {
+			time.Local = east
+		} else {
+			time.Local = time.UTC
+		}
 		if r.Chance(0.3) {
 			return worlds[r.Intn(3)]
 		}
@@ -1308,6 +1328,19 @@ func main() {
 	for _, slug := range slugs {
 		for _, lr := range [][2]int64{{0, 3600}, {0, 0}, {3600, 0}, {-1, 3600}, {3, 0}, {3600, 3}} {
 			cases = append(cases, w0.subsecondCase(f, r, lr[0], lr[1], slug))
+		}
+	}
+	// folded look-alikes of allowed addresses / domains, as cookie and as IdP-vouched identity
+	for _, fc := range []struct {
+		w     *world
+		email string
+	}{{worlds[14], "\u017fam@corp.example"}, {worlds[14], "SAM@corp.example"}, {worlds[14], "\u212aim@corp.example"}, {worlds[14], "\u017fam@CORP.example"},
+		{worlds[15], "x@\u017fk.example"}, {worlds[15], "x@s\u212a.example"}, {worlds[15], "x@SK.example"}} {
+		for _, slug := range slugs {
+			s := fresh
+			s.Email = fc.email
+			cases = append(cases, fc.w.signInCase(f, siCase{nil, slug, okReq, cookieIn{Kind: "cookie", S: s}, okRefresh, okValidate}))
+			cases = append(cases, fc.w.callbackCase(f, cbCase{Slug: slug, Method: "GET", Code: "c1", StateKind: "genuine", CookieK: "genuine", RedirOK: true, Email: fc.email, RedeemSt: 200}))
 		}
 	}
 	for mode := 0; mode < 5; mode++ {
